@@ -137,5 +137,5 @@ FoldHistory(pool, evs, i) ==
     IF i > Len(evs) THEN [at |-> 0, clause |-> ""]
     ELSE LET c == EventClause(pool, evs[i]) IN
          IF c # "" THEN [at |-> i, clause |-> c]
-         ELSE FoldHistory(evs[i].post, evs, i + 1)
+         ELSE FoldHistory(TLCEval(evs[i].post), evs, i + 1)
 =============================================================================
